@@ -32,6 +32,10 @@ checks["C01"] = dict(
    text="Proof, for all wrapped values (an abstract value sort with the reflect observers untyped/kind/nilref/elem), that IsNil(obj) is exactly 'untyped nil or nil pointer', that both constructors establish the well-formedness invariant isNil == absent(ref) && isPresent == !isNil (Just maps every absent value to None), and that under that invariant every observer of someDef and of None is the function of absent(ref) and ref the statement gives: IsPresent = !IsNil, Or, UnwrapInterface, Type (nil exactly when absent), ToString (\"<nil>\" when absent), Kind/IsPtr/IsValid/IsKind, FlatMap(f) = f(ref) (from which the monad laws follow), ToMaybe flattens exactly one level (a nested Maybe is returned as is, once), Clone/CloneTo return a well-formed Maybe. Every reflect call inside these methods (Value.IsNil, Elem, Interface, Type, Set, Type.Kind) and every type assertion carries its panic precondition as an obligation, so 'no observer panics' is proved for all v. The conversions' absent-case is C02's clause N.",
    note="Trusted: the reflect axioms (Kind()==Invalid iff zero Value; IsNil/Elem/Interface/Type/Set panic conditions; Elem/Indirect of nil and non-nil pointers; New; pointer types determined by element types), govc's boxing model of interface values and type parameters (a value of static type T has dynamic type T unless nil interface), interface observers munwrap for MaybeDef values with the dispatch fact for someDef assumed in Clone, 'the zero value of a pointer-kinded type is absent' (assumed in Clone), fmt.Sprintf total. Let (callback exactly once) and Clone's 'distinct copy of the pointee' are NOT covered (no call-count ghost for Let yet; reflect copies are not modelled beyond freshness). The monad laws are consequences of FlatMap's contract and are not separately machine-checked lemmas.",
    ref="5 C01")
+checks["C18"] = dict(
+   text="Proof over a ghost event trace that recursiveVisit(req, i) (and RoundTrip = recursiveVisit(req, 0)) invokes the registered interceptors i, i+1, ... exactly once each, in list order, with the same request pointer, stops after the first one that returns an error (returning (nil, that error) and never reaching the transport), and otherwise ends with exactly one call of the wrapped transport with that request whose error result it returns - for every list length and every position of the failing interceptor (recursive contract; callee used by contract). SetHTTPClient re-establishes the object invariant (client.Transport == self, lastTransport == self, wrapped transport non-nil and not self) for any client and is idempotent on an already wrapped client; AddInterceptor grows the list by exactly the given interceptors through the persistent Stream.Append and - by the frame obligations - never writes existing storage; Clear empties the list; Remove/Add/Clear leave the transport fields alone.",
+   note="Trusted: http.Client.Do invokes client.Transport.RoundTrip once per request (no redirects); interceptors do not edit the interceptor list while running; interceptor pointers in the list and the interceptors they point to are non-nil (precondition); http.DefaultTransport is non-nil and not this object. NOT proved: the element-level result of AddInterceptor (only its length, frame and field preservation) and of RemoveInterceptor (only shrink + frame); DoRequest/Do* wrappers. Trace model of callbacks: one synchronous call event per invocation.",
+   ref="5 C18")
 na = {
  "C07": "quantifies over producer/consumer/loader interleavings and includes liveness (nothing stranded, wake-ups not lost); no per-function contract expresses cross-goroutine exactly-once hand-over or eventual loading (DESIGN.md 6).",
  "C09": "every clause is about goroutine scheduling, timers and recovery from panics in other goroutines; the named defect is a lost wake-up (liveness under a fault) (DESIGN.md 6).",
